@@ -1,4 +1,5 @@
 import PGV.Proofs.Inject
+import PGV.Proofs.TagScan
 
 /-!
 # C07 — tag injection is idempotent
@@ -47,6 +48,38 @@ theorem C07_iterate (cs : List Chunk) (h : ∀ c ∈ cs, Chunk.rereads c) (n : N
   | succ n ih =>
     show Spec.Inject.inject (runs (n + 1) cs) = _
     rw [ih, C07_file_idem cs h]
+
+/-- re-reading is never an extra assumption: whatever the literal and the comment contain, the scanner
+reads the rewritten literal back as exactly the merged items (`newTagItems ∘ format = id` on items in
+conventional form, and the scanner only ever produces such items) -/
+theorem C07_rereads (text inj : Bytes) (hnd : (keys (newTagItems inj)).Nodup) : Chunk.rereads (.tagged text inj) := by
+  refine ⟨?_, hnd⟩
+  unfold newTextWith
+  exact PGV.Proofs.TagScan.newTagItems_format _
+    (PGV.Proofs.TagScan.merge_wf _ _ (PGV.Proofs.TagScan.newTagItems_wf text) (PGV.Proofs.TagScan.newTagItems_wf inj))
+
+/-- the comment of an annotated field does not repeat a key -/
+def Chunk.distinctComment : Chunk → Prop
+  | .plain _ => True
+  | .tagged _ inj => (keys (newTagItems inj)).Nodup
+
+/-- **idempotence of the file transformer**, for every file whose comments do not repeat a key: any
+tag literals, any bytes in between, any number of annotated fields -/
+theorem C07_file_idempotent (cs : List Chunk) (h : ∀ c ∈ cs, Chunk.distinctComment c) :
+    Spec.Inject.inject (Spec.Inject.inject cs) = Spec.Inject.inject cs := by
+  apply C07_file_idem
+  intro c hc
+  cases c with
+  | plain bs => trivial
+  | tagged text inj => exact C07_rereads text inj (h _ hc)
+
+theorem C07_any_number_of_runs (cs : List Chunk) (h : ∀ c ∈ cs, Chunk.distinctComment c) (n : Nat) :
+    runs (n + 1) cs = Spec.Inject.inject cs := by
+  apply C07_iterate
+  intro c hc
+  cases c with
+  | plain bs => trivial
+  | tagged text inj => exact C07_rereads text inj (h _ hc)
 
 /-- a file without annotations is written back unchanged -/
 theorem C07_no_annotation_identity (contents : Bytes) : writeFile contents [] = .ok contents := rfl
